@@ -28,13 +28,16 @@ DISK_COL = {"read_count": 0, "read_merged_count": 1, "read_bytes": 2, "read_time
 
 
 class Cfg:
-    def __init__(self, seed, mode, thorough, big=False):
+    def __init__(self, seed, mode, thorough, big=False, cross=False):
         self.mode = mode          # 'net' | 'disk' | 'both'
+        # cross: the two functions interleaved over kernels whose device NAMES coincide (a NIC may be called "sda"), with a reduced
+        # alphabet (see Exec.enabled) and the event "the kernel lists no device at all for this function"
+        self.cross = cross
         self.thorough = thorough
         # the values the moving counters take: small ones, or the neighbourhood of 2**63 / 2**64 (u64 counters about to wrap)
         self.vals = VALS_BIG if big else VALS
         self.off = 100 * (seed % 7)   # don't-care base offset of untouched counters
-        self.net_devs = ("x", "y", "z")
+        self.net_devs = ("x", "y", "z") if not cross else ("sda", "sda1")
         self.disk_devs = ("sda", "sda1")
         # the counters that events move (psutil field names)
         self.net_ctrs = ("bytes_sent", "packets_recv")
@@ -65,6 +68,7 @@ class Exec:
         # reference accumulator: fn -> None | {"prev": {dev: {f: raw}}, "rem": {dev: {f: n}}}
         self.ref = {"net": None, "disk": None}
         self.hidden_by_totals = set()
+        self.blank = {"net": False, "disk": False}     # the function's kernel table lists no device at all
         self.nfail = 0
         self.last = {"net": {}, "disk": {}}      # last nowrap=True value returned per (dev, field)
         w.mkdir("/sys/block/sda")
@@ -83,7 +87,7 @@ class Exec:
         self.rev = {"net": self._rev("net"), "disk": self._rev("disk")}
         lines = [NET_HDR]
         for d, vals in (reversed(list(self.raw["net"].items())) if self.rev["net"] else self.raw["net"].items()):
-            if self.present["net"][d]:
+            if self.present["net"][d] and not self.blank["net"]:
                 cols = [0] * 16
                 for f, v in vals.items():
                     cols[NET_COL[f]] = v
@@ -92,7 +96,7 @@ class Exec:
         lines = []
         order = list(enumerate(self.raw["disk"].items()))
         for i, (d, vals) in (reversed(order) if self.rev["disk"] else order):
-            if self.present["disk"][d]:
+            if self.present["disk"][d] and not self.blank["disk"]:
                 cols = [0] * 17
                 for f, v in vals.items():
                     cols[DISK_COL[f]] = v
@@ -105,6 +109,26 @@ class Exec:
     def enabled(self):
         c = self.cfg
         ev = []
+        if c.cross:
+            # reduced alphabet: nowrap=True calls (per-device; disk also totals, whose device set is smaller), one moving counter
+            # of the pluggable device, its unplug / plug, and ONE function's table going empty for good (every call form is then
+            # asked on the empty table; the other function's history must not notice).
+            # and filling up again ("unblank"): a device the function has been seen without starts afresh
+            for fn in ("net", "disk"):
+                devs = c.net_devs if fn == "net" else c.disk_devs
+                f0 = (c.net_ctrs if fn == "net" else c.disk_ctrs)[0]
+                if self.blank[fn]:
+                    ev += [["call", fn, nowrap, per] for nowrap in (True, False) for per in (True, False)]
+                    ev.append(["unblank", fn])      # the table fills up again (the devices it listed before, counters as set)
+                    continue
+                ev.append(["call", fn, True, True])
+                if fn == "disk":
+                    ev.append(["call", fn, True, False])
+                ev += [["set", fn, devs[1], f0, v] for v in c.vals if v != self.raw[fn][devs[1]][f0]]
+                ev.append(["unplug", fn, devs[1]] if self.present[fn][devs[1]] else ["plug", fn, devs[1]])
+                if not any(self.blank.values()):
+                    ev.append(["blank", fn])
+            return ev
         for fn in self.fns():
             devs = c.net_devs if fn == "net" else c.disk_devs
             ctrs = c.net_ctrs if fn == "net" else c.disk_ctrs
@@ -130,7 +154,7 @@ class Exec:
 
     def visible(self, fn, per):
         """devices the call's raw dict contains"""
-        devs = [d for d, p in self.present[fn].items() if p]
+        devs = [d for d, p in self.present[fn].items() if p and not self.blank[fn]]
         if fn == "disk" and not per:
             devs = [d for d in devs if d == "sda"]       # totals: whole disks only
         return devs
@@ -160,6 +184,16 @@ class Exec:
             _, fn, d = ev
             for i, f in enumerate(self.raw[fn][d]):
                 self.raw[fn][d][f] = min(self.raw[fn][d][f] - 1, 2 + i % 3) if self.raw[fn][d][f] > 0 else 0
+            self.sync()
+        elif k == "blank":
+            # (cross histories only) the kernel lists NO device at all for this function from now on (diskless / NIC-less box).
+            # "unblank" brings the same devices back.  (This found a defect of the pinned tree, repaired by a fix: commit: the public
+            # functions returned early on an empty table WITHOUT showing it to the nowrap history, so after  call(x=5) ; table
+            # empty ; call -> {} ; table back with x=1 ; call  psutil returned 1+5 for a device that had disappeared and reappeared.)
+            self.blank[ev[1]] = True
+            self.sync()
+        elif k == "unblank":
+            self.blank[ev[1]] = False
             self.sync()
         elif k == "unplug":
             self.present[ev[1]][ev[2]] = False
@@ -227,6 +261,10 @@ class Exec:
         if not devs:
             if val != ({} if per else None):
                 self.viol("empty-convention", "%s(per=%r) with no device -> %r" % (fn, per, val))
+            if nowrap:
+                self.last[fn] = {}       # every device is absent at this observation: whatever comes back starts afresh
+                if fn == "disk":
+                    self.hidden_by_totals = set()
             return "call:empty"
         if per:
             if not isinstance(val, dict) or sorted(val) != sorted(devs):
@@ -270,7 +308,8 @@ class Exec:
             self.last[fn] = newlast      # devices absent at this observation start afresh
         elif nowrap:
             # totals call: devices that are absent now start afresh; partitions are merely not listed
-            self.last[fn] = {k: v for k, v in self.last[fn].items() if self.present[fn].get(k[0])}
+            # (an empty table -- "blank" -- lists no device at all: every device is absent at this observation)
+            self.last[fn] = {k: v for k, v in self.last[fn].items() if self.present[fn].get(k[0]) and not self.blank[fn]}
             if fn == "disk":
                 self.hidden_by_totals |= {d for d, p in self.present[fn].items() if p and d not in devs}
         return "call:%s:%s:%s" % (fn, "nowrap" if nowrap else "raw", "per" if per else "tot")
@@ -279,6 +318,8 @@ class Exec:
         wn = self.ps._common._wn
         c = self.cfg
         key = {"raw": {}, "present": {}, "ref": {}, "wn": {}, "last": {}, "hid": sorted(self.hidden_by_totals), "nfail": self.nfail}
+        if c.cross:
+            key["blank"] = dict(self.blank)
         for fn in self.fns():
             ctrs = c.net_ctrs if fn == "net" else c.disk_ctrs
             key["raw"][fn] = {d: [self.raw[fn][d][f] for f in ctrs] for d in self.raw[fn]}
@@ -353,6 +394,26 @@ def special(ctx, mode):
     return n, viols
 
 
+def _cross_roots():
+    """start states: function A has been called, function B carries a wrap reminder for its pluggable device, which has just been
+    unplugged (not yet observed) -- both ways round"""
+    rs = []
+    for a, b, f in (("disk", "net", "bytes_sent"), ("net", "disk", "read_count")):
+        rs.append([["call", a, True, True], ["call", b, True, True], ["set", b, "sda1", f, 1], ["call", b, True, True],
+                   ["unplug", b, "sda1"]])
+    return rs
+
+
+def cross(ctx, depth):
+    global _CFG
+    _CFG = Cfg(ctx.seed, "both", ctx.thorough, cross=True)
+    ctx.close()
+    res = bfs(run_h, depth, ctx, roots=_cross_roots())
+    for v in res["violations"]:
+        v["case"]["mode"] = "cross"
+    return res
+
+
 def one(ctx, mode, depth):
     global _CFG
     big = mode.endswith("-big")
@@ -373,8 +434,14 @@ def run(ctx):
     tot = {"states": 0, "transitions": 0}
     viols, labels, parts, samples = [], {}, {}, []
     capped = None
+    if not ctx.alt:
+        plan.append(("cross", 6 if ctx.thorough else 5))
+    import os
+    only = os.environ.get("VF_C10_ONLY")      # development aid: run one part of the plan alone (e.g. VF_C10_ONLY=cross)
+    if only:
+        plan = [p for p in plan if p[0] == only]
     for mode, depth in plan:
-        r = one(ctx, mode, depth)
+        r = one(ctx, mode, depth) if mode != "cross" else cross(ctx, depth)
         tot["states"] += r["states"]
         tot["transitions"] += r["transitions"]
         viols += r["violations"]
@@ -384,7 +451,7 @@ def run(ctx):
                        "new_states_per_level": r["new_states_per_level"]}
         samples += [{"mode": mode, "history": h} for h in sample(r["samples"], 3)]
         capped = capped or r["capped"]
-    if not ctx.alt:
+    if not ctx.alt and not only:
         for mode in ("net", "disk"):
             n_, vs_ = special(ctx, mode)
             viols += vs_
@@ -392,7 +459,7 @@ def run(ctx):
             parts["beyond-the-value-alphabet:" + mode] = {"histories": n_, "starts": SPECIAL[mode]}
     from vf.checks import c10s
     ctx.close()
-    sres = c10s.run_s(ctx) if not ctx.alt else {"violations": [], "coverage": {"executions": 0, "transitions": 0}}
+    sres = c10s.run_s(ctx) if not ctx.alt and not only else {"violations": [], "coverage": {"executions": 0, "transitions": 0}}
     viols += sres["violations"]
     tot["states"] += sres["coverage"]["executions"]
     tot["transitions"] += sres["coverage"]["transitions"]
@@ -401,7 +468,10 @@ def run(ctx):
            "distinct_outcomes": len(labels), "outcome_counts": labels, "samples": samples,
            "exhaustive": capped is None, "capped": capped,
            "roots": ROOTS, "alphabet": {"net devices": ["x", "y (pluggable)", "z (pluggable, initially absent)"], "disk devices": ["sda (whole disk)", "sda1 (partition, pluggable)"],
-                        "values": list(VALS), "calls": "net|disk x nowrap T/F x per-device T/F", "other": ["cache_clear(fn)"]}}
+                        "values": list(VALS), "calls": "net|disk x nowrap T/F x per-device T/F", "other": ["cache_clear(fn)"],
+                        "cross": "net and disk both over devices named sda / sda1 (shared names); calls nowrap=True (per-device, disk also "
+                                 "totals), one counter of sda1, unplug/plug sda1, one function's table going empty for good (then all 4 "
+                                 "call forms on it); roots: see _cross_roots()"}}
     return {"coverage": cov, "violations": viols,
             "assumptions": ["a counter 'went backwards' / a device 'disappeared' as observed between successive nowrap=True calls "
                             "of the same function (psutil can observe the kernel only at calls)"]}
@@ -412,7 +482,10 @@ def replay(ctx, case):
     if case.get("part") == "S":
         from vf.checks import c10s
         return c10s.replay_s(ctx, case)
-    _CFG = Cfg(ctx.seed, case.get("mode", "both").split("-")[0], ctx.thorough, big=case.get("mode", "").endswith("-big"))
+    if case.get("mode") == "cross":
+        _CFG = Cfg(ctx.seed, "both", ctx.thorough, cross=True)
+    else:
+        _CFG = Cfg(ctx.seed, case.get("mode", "both").split("-")[0], ctx.thorough, big=case.get("mode", "").endswith("-big"))
     ex = Exec(_CFG)
     trace = []
     for ev in case["history"]:
